@@ -152,7 +152,7 @@ class EngineCheck:
                          violations=nviol)
         return C.EXIT_VIOLATION if nviol else C.EXIT_OK
 
-    def merge_blocks(self, view_name, coverage):
+    def merge_blocks(self, view_name, coverage, rule=None):
         """Adds the WalrusBlocks design-model pipeline (TLC refinement check of the block-level design
         + replay of TLC-generated behaviours on the real engine) to this check."""
         from . import props_blocks as PB
@@ -170,7 +170,7 @@ class EngineCheck:
         for k, v in cov.items():
             if k not in ("states", "transitions", "traces_validated_against_impl"):
                 coverage[k] = v
-        coverage["rule"] = coverage.get("rule", "") + (" PLUS the design model WalrusBlocks (tiny geometry, transcription of writer/reader/"
+        coverage["rule"] = coverage.get("rule", "") + (rule or " PLUS the design model WalrusBlocks (tiny geometry, transcription of writer/reader/"
                                                       "planner/parser/recovery) checked by TLC to refine WalrusAPI; one shortest behaviour per distinct (code path, "
                                                       "design state) is generated by TLC, a stratified selection is replayed on the real engine under fd and mmap with "
                                                       "drain and reopen+drain tails, validated against the contract, and the engine's projected state is compared with "
